@@ -1333,9 +1333,17 @@ func goDatum(cases ...GoCase) Datum {
 
 // scenarios every run must contain: colliding pairs (one failing; all succeeding, hence stored and re-read), a
 // retried target, a target without results file, go output, a results directory
-func forcedScenarios() []Scenario {
+func forcedScenarios(thorough bool) []Scenario {
 	a, b := [2]string{"pkg.Outer", "Inner.test_ok"}, [2]string{"pkg.Outer.Inner", "test_ok"}
-	return []Scenario{
+	out := []Scenario{
+		// regression for the fixed finding flaky-allowance-wraps-mod-256 (flaky = 256 used to become an allowance of 0:
+		// the test command never ran and the target was reported as passing): the command must run, fail, be retried
+		{Name: "f256", Flaky: 256, Domain: true, Attempts: []Attempt{
+			{ExitNonzero: true, Data: []Datum{xmlDatum(0, XCase{Class: "c", Name: "x", Fail: true})}},
+			{Data: []Datum{xmlDatum(0, XCase{Class: "c", Name: "x"})}}}},
+		// a go test case with a RUN line and no result line (gtr.Unknown) next to a passing one, exit status 0
+		{Name: "fgounk", Flaky: 1, Attempts: []Attempt{{Data: []Datum{goDatum(
+			GoCase{Name: "TestA", Res: "pass"}, GoCase{Name: "TestNeverFinished", Res: "unknown"})}}}},
 		{Name: "fcol1", Flaky: 1, Domain: true, Attempts: []Attempt{{ExitNonzero: true, Data: []Datum{xmlDatum(0,
 			XCase{Class: a[0], Name: a[1]}, XCase{Class: b[0], Name: b[1], Fail: true})}}}},
 		{Name: "fcol2", Flaky: 1, Domain: true, Attempts: []Attempt{{Data: []Datum{xmlDatum(64,
@@ -1350,6 +1358,41 @@ func forcedScenarios() []Scenario {
 		{Name: "fdir", Flaky: 1, Domain: true, Attempts: []Attempt{{Data: []Datum{
 			xmlDatum(2048, XCase{Class: "c", Name: "one"}, XCase{Class: "c", Name: "two", Skip: true}),
 			goDatum(GoCase{Name: "TestD", Res: "pass"})}}}},
+	}
+	if thorough {
+		// the literal regression: `exit 1` on every attempt, no results file; 255 attempts (about 20 s per invocation)
+		sc := Scenario{Name: "f256x", Flaky: 256}
+		for i := 0; i < 255; i++ {
+			sc.Attempts = append(sc.Attempts, Attempt{ExitNonzero: true})
+		}
+		out = append(out, sc)
+	}
+	return out
+}
+
+// the allowance the engine sees: src/parse/asp/targets.go clamps `flaky` to uint8
+func engineFlaky(sc Scenario) int { return min(sc.Flaky, 255) }
+
+// forced scenarios only: a case written without an outcome must not be counted as passed
+func judgeUnfinished(c *lib.Ctx, where string, sc Scenario, got counts, passed bool) {
+	npass, nunk := 0, 0
+	for _, a := range sc.Attempts {
+		for _, k := range attemptCases(a) {
+			if len(k.Outs) == 1 && k.Outs[0] == "pass" {
+				npass++
+			}
+			if len(k.Outs) == 1 && k.Outs[0] == "unknown" {
+				nunk++
+			}
+		}
+	}
+	if nunk == 0 {
+		return
+	}
+	c.Oracle()
+	if got[1] > npass {
+		c.Fail("go-test-unfinished-case-counted-as-passed", fmt.Sprintf("%s: target %s wrote %d passed cases and %d cases with a `=== RUN` line but no result line; reported tests/passed/flakes/failed/errored/skipped=%v passing=%v",
+			where, sc.Name, npass, nunk, got, passed), sc.js())
 	}
 }
 
@@ -1640,6 +1683,13 @@ func main() {
 				judgeFailedCases(c, "in-process", sc, got)
 			}
 		}
+		for _, sc := range forcedScenarios(false) {
+			if sc.Flaky <= 255 {
+				flakeCase(sc)
+				res := runInProcess(sc)
+				judgeUnfinished(c, "in-process", sc, countsOf(res), res.TestCases.AllSucceeded())
+			}
+		}
 		for i := 0; i < c.Scale(160, 6000); i++ {
 			r := c.Rng.Fork()
 			if i%8 == 7 {
@@ -1752,7 +1802,7 @@ func main() {
 
 		// --- 6. the same through the real binary
 		if plz := os.Getenv("VERIF_PLZ"); plz != "" {
-			scs := forcedScenarios()
+			scs := forcedScenarios(c.Scale(0, 1) == 1)
 			for i := 0; i < c.Scale(24, 300); i++ {
 				r := c.Rng.Fork()
 				if i%5 == 4 {
@@ -1773,17 +1823,26 @@ func main() {
 				r, r2 := res[sc.Name], res2[sc.Name]
 				js := map[string]any{"scenario": sc.js(), "counts": r.n, "passed": r.passed, "via": "plz test"}
 				if !sc.NoOutput {
-					c.Case(lib.App("CE2E", lib.Str(sc.Name), lib.Nat(sc.Flaky), coqAttempts(sc.Attempts), coqCounts(r.n), lib.Bool(r.passed)),
+					c.Case(lib.App("CE2E", lib.Str(sc.Name), lib.Nat(engineFlaky(sc)), coqAttempts(sc.Attempts), coqCounts(r.n), lib.Bool(r.passed)),
 						js, fmt.Sprint("e", js), r.n[0] > 1 && r.n[1] != r.n[0])
 				}
 				c.Hist("e2e", "targets")
+				if sc.Flaky > 255 {
+					// the test command must have been executed
+					c.Oracle()
+					if r.n[0] == 0 || (sc.Name == "f256x" && r.passed) {
+						c.Fail("flaky-allowance-wraps-mod-256", fmt.Sprintf("target %s has flaky = %d and a failing first attempt, but `plz test` reported tests/passed/flakes/failed/errored/skipped=%v passing=%v: the test command was not run",
+							sc.Name, sc.Flaky, r.n, r.passed), js)
+					}
+				}
 				if sc.Domain {
 					judge(c, "plz test", sc, r.n, r.passed)
 				}
+				judgeUnfinished(c, "plz test", sc, r.n, r.passed)
 				// the second invocation of the unchanged repository
 				js2 := map[string]any{"scenario": sc.js(), "first": map[string]any{"counts": r.n, "passed": r.passed, "cases": r.xml},
 					"second": map[string]any{"counts": r2.n, "passed": r2.passed, "cached": r2.cached, "cases": r2.xml}, "via": "plz test, twice"}
-				c.Case(lib.App("CTwice", lib.Str(sc.Name), lib.Bool(sc.NoOutput), lib.Nat(sc.Flaky), coqAttempts(sc.Attempts),
+				c.Case(lib.App("CTwice", lib.Str(sc.Name), lib.Bool(sc.NoOutput), lib.Nat(engineFlaky(sc)), coqAttempts(sc.Attempts),
 					coqCounts(r.n), lib.Bool(r.passed), coqCounts(r2.n), lib.Bool(r2.passed), lib.Bool(r2.cached)),
 					js2, fmt.Sprint("t", js2), r2.cached && r2.n[0] > 1)
 				c.Hist("e2e_second", map[bool]string{false: "run again", true: "cached"}[r2.cached])
@@ -1819,7 +1878,7 @@ func main() {
 					}
 				}
 			}
-			c.Note("e2e: %d gentest targets (6 forced: colliding pairs, retry, no results file, go output, results directory) run by `plz test //t:all --detailed` TWICE in one repository; %d were reported [cached] by the second invocation",
+			c.Note("e2e: %d gentest targets (8 forced: colliding pairs, retry, no results file, go output, results directory, flaky = 256, unfinished go case) run by `plz test //t:all --detailed` TWICE in one repository; %d were reported [cached] by the second invocation",
 				len(scs), ncached)
 		} else {
 			c.Note("e2e: VERIF_PLZ not set, skipped")
